@@ -464,6 +464,7 @@ func modelErrorsIs(x *Exec, fr *Frame, st *State, pc *preparedCall, k func(*Stat
 	for _, fe := range x.freshErrs {
 		st.assumeRaw(Not(App("wraps", SBool, fe, b)))
 	}
+	x.sentinelAxiom()
 	// nil never "is" a non-nil target
 	ret1(st, k, BoolV{Ite(Eq(a, IntLit(0)), Eq(b, IntLit(0)), errIs(a, b))})
 }
